@@ -125,7 +125,7 @@ impl Prop for C05 {
         "C05"
     }
     fn cases(&self, tier: Tier) -> u64 {
-        tier.pick(600_000, 5_000_000)
+        tier.pick(600_000, 10_000_000)
     }
     fn strategy(&self, _tier: Tier) -> BoxedStrategy<Case> {
         let spec = (
